@@ -39,7 +39,9 @@ def main():
     if a.replay:
         if hasattr(mod, "replay"):
             return mod.replay(a.replay, a.quiet)
-        return explorer.replay(prop, mod.spaces("thorough"), a.replay, a.quiet)
+        import json
+        rec_tier = json.load(open(a.replay, encoding="utf8")).get("tier", "thorough")
+        return explorer.replay(prop, mod.spaces(rec_tier), a.replay, a.quiet)
     if hasattr(mod, "run"):
         return mod.run(tier, t0)
     spaces = mod.spaces(tier)
